@@ -120,35 +120,48 @@ func opsQuorumReachable(s *sim.Sim, n *node.Node) bool {
 // little longer. Returns the leader or nil.
 func opsSettle(s *sim.Sim, extra time.Duration) *node.Node {
 	s.Net.Heal()
-	cond := func() bool {
-		l := s.Leader()
-		if l == nil || s.PendingTasks() > 0 {
-			return false
-		}
-		lc, err := l.Store.CommitIndex()
-		if err != nil {
-			return false
-		}
-		ns, err := l.Store.Nodes()
-		if err != nil {
-			return false
-		}
-		for _, sv := range ns {
-			m := opsNodeByID(s, sv.ID)
-			if m == nil || !m.Up || m.RaftAddr != sv.Addr {
-				continue
-			}
-			c, err := m.Store.CommitIndex()
-			if err != nil || c < lc {
-				return false
-			}
-		}
-		return true
-	}
+	cond := func() bool { return opsSettled(s) }
 	s.RunUntil(cond, 40*time.Second)
 	s.RunFor(extra)
 	s.RunUntil(cond, 20*time.Second)
 	return s.Leader()
+}
+
+// opsSettled: exactly one leader, no task pending, the leader's log is committed
+// and applied to its end, and every up member of the leader's configuration
+// has reached the leader's commit index (so every log
+// is a prefix-consistent copy up to there: entries of deposed leaders that
+// were never committed have been overwritten).
+func opsSettled(s *sim.Sim) bool {
+	l := s.Leader()
+	if l == nil || s.PendingTasks() > 0 {
+		return false
+	}
+	// the leader has committed and applied its whole log (in particular the no-op
+	// of its own term, and with it anything it inherited from an earlier term)
+	rs := l.Store.VerifReadState()
+	if rs.CommitIndex != rs.LastLogIndex || rs.RaftAppliedIndex != rs.CommitIndex {
+		return false
+	}
+	lc, err := l.Store.CommitIndex()
+	if err != nil {
+		return false
+	}
+	ns, err := l.Store.Nodes()
+	if err != nil {
+		return false
+	}
+	for _, sv := range ns {
+		m := opsNodeByID(s, sv.ID)
+		if m == nil || !m.Up || m.RaftAddr != sv.Addr {
+			continue
+		}
+		c, err := m.Store.CommitIndex()
+		if err != nil || c < lc {
+			return false
+		}
+	}
+	return true
 }
 
 func opsIsolate(s *sim.Sim, i int) {
